@@ -106,7 +106,7 @@ pub fn all() -> Vec<PropInfo> {
                non-trivial = >= 3 records and (threads >= 2 or >= 2 batches or a non-FIFO controlled schedule or a non-baseline container); distinct by hash of the case \
                plus big outputs: a record list repeated until the output has 64 KiB, 1, 4, 8 (16, 32) MiB, k 3..=8, optional long first record \
                left-over output at the output path, record starts aligned to 4 KiB .. 2 MiB of the text, multi-line FASTQ, nameless records, records whose window total is a multiple of 128 / 640 (decimal ties)",
-        assumptions: &["interleavings finer than the two schedule points per worker loop are explored only by free-running threads", "mmap writer is only used in normalised mode (it asserts so)"],
+        assumptions: &["interleavings finer than the two schedule points per worker loop are explored only by free-running threads", "mmap writer is only used in normalised mode (it asserts so)", "a record whose header line holds no name (but which has bases) counts as a record and gets its row"],
         abort_is_violation: false,
     },
     PropInfo {
@@ -145,7 +145,7 @@ pub fn all() -> Vec<PropInfo> {
                read back through SeqFormat::get + get_reader + Sequences and through seq_stats; oracle = the record list itself (round trip); \
                non-trivial = >= 2 records and (wrapped or CRLF or no final newline or an empty record or >= 2 gzip members or a line > 8 KiB); distinct by hash of the case \
                multi-line FASTQ, record starts (or a point inside the header line, or between CR and LF) aligned to block boundaries of the text, nameless records with bases, descriptions containing > @ +",
-        assumptions: &["only well-formed input: unique ids without white space, one space before the description, no blank lines, FASTQ only when every record has >= 1 base (rust-bio rejects empty FASTQ sequences), ASCII sequence bytes"],
+        assumptions: &["only well-formed input: unique ids without white space, one space before the description, no blank lines, FASTQ only when every record has >= 1 base (rust-bio rejects empty FASTQ sequences), ASCII sequence bytes", "multi-line FASTQ (sequence and quality wrapped) counts as well-formed, with quality lines that do not start with @ or +; a record may have an empty name if it has bases (one with neither is the reader's end marker and is not generated)"],
         abort_is_violation: false,
     },
     PropInfo {
